@@ -14,6 +14,11 @@ def main(argv):
         ctx = common.Ctx(pid, "quick", int(body.get("seed", 0)))
         ok, log = common.ensure_built()
         print(json.dumps({"what": body["what"], "concrete": body["concrete_failing_input"]}, indent=1))
+        if isinstance(body["replay"], dict) and "generated_model" in body["replay"]:
+            import gencheck
+            r = gencheck.replay(ctx, body["replay"])
+            print("REPLAY:", "still failing" if r else "passes now")
+            return 1 if r else 0
         if hasattr(eng, "replay"):
             r = eng.replay(ctx, body["replay"])
             print("REPLAY:", "still failing" if r else "passes now")
